@@ -39,6 +39,7 @@ type scenario struct {
 	BlameOnly     bool     `json:"blame_only,omitempty"`     // of those, only the delta / chi inconsistencies every honest signer must attribute
 	Pool          int      `json:"pool,omitempty"`           // > 0: the sessions run with a worker pool of that size (C05: a panic on a pool goroutine kills the process)
 	OnlyOps       []string `json:"only_ops,omitempty"`       // restrict the operator menu (quick-tier sizing of expensive scenarios)
+	Whole         bool     `json:"whole,omitempty"`          // small catalogue of an expensive protocol: ONE process builds the world and runs all its cases
 	CommittedOnly bool     `json:"committed_only,omitempty"` // only the commit-to-a-malformed-value-and-open-it deviations (special.go: committedValueCases)
 	StartOnly     bool     `json:"start_only,omitempty"`     // only the dealer-from-the-start deviations (special.go: startCases)
 	OnlyPaths     []string `json:"only_paths,omitempty"`     // restrict the field paths (quick-tier sizing of expensive scenarios)
@@ -254,34 +255,34 @@ func scenarios(check string) []scenario {
 	if check == "C03" || check == "C04" {
 		// a dealer that deviates from its first instruction (consistent wrong-degree / non-zero-constant polynomial);
 		// three parties and t = 1, because with t = n-1 a wrong degree cannot be observed
-		l = append(l, scenario{Name: "cmp-keygen/n3/t1/dealer-from-start", Proto: "cmp-keygen", N: 3, T: 1, Cost: 2, StartOnly: true})
-		l = append(l, scenario{Name: "cmp-refresh/n3/t1/dealer-from-start", Proto: "cmp-refresh", N: 3, T: 1, Cost: 2, StartOnly: true})
+		l = append(l, scenario{Name: "cmp-keygen/n3/t1/dealer-from-start", Proto: "cmp-keygen", N: 3, T: 1, Cost: 2, StartOnly: true, Whole: true})
+		l = append(l, scenario{Name: "cmp-refresh/n3/t1/dealer-from-start", Proto: "cmp-refresh", N: 3, T: 1, Cost: 2, StartOnly: true, Whole: true})
 		// the secret share a dealer hands out in the last message round of the CMP key generation, from a dealer that is
 		// NOT the last of the victim's peers (three parties; the full three-party catalogue is in the thorough tier)
-		l = append(l, scenario{Name: "cmp-keygen/n3/t1/share", Proto: "cmp-keygen", N: 3, T: 1, Cost: 2, OnlyPaths: []string{"/Share"}, OnlyOps: []string{"int-plus1", "sc-plus1", "int-flip-mid", "bit-flip"}})
+		l = append(l, scenario{Name: "cmp-keygen/n3/t1/share", Proto: "cmp-keygen", N: 3, T: 1, Cost: 2, OnlyPaths: []string{"/Share"}, OnlyOps: []string{"int-plus1", "sc-plus1", "bit-flip"}, Whole: true})
 	}
 	if check == "C03" || check == "C04" {
 		// the chain-key contribution a party reveals in round 3 of the CMP key generation (three parties: shown differently
 		// to the two honest ones), and a second valid commitment shown to one recipient only and opened consistently
-		l = append(l, scenario{Name: "cmp-keygen/n3/t1/chain-key", Proto: "cmp-keygen", N: 3, T: 1, Cost: 2, OnlyPaths: []string{"/C"}})
+		l = append(l, scenario{Name: "cmp-keygen/n3/t1/chain-key", Proto: "cmp-keygen", N: 3, T: 1, Cost: 2, OnlyPaths: []string{"/C"}, Whole: true})
 	}
 	// CMP key generation: a second valid commitment shown to one recipient only and opened consistently; a commitment to a
 	// malformed rid / chain-key contribution opened consistently to everybody
-	l = append(l, scenario{Name: "cmp-keygen/n3/t1/second-commitment", Proto: "cmp-keygen", N: 3, T: 1, Cost: 2, CommittedOnly: true})
+	l = append(l, scenario{Name: "cmp-keygen/n3/t1/second-commitment", Proto: "cmp-keygen", N: 3, T: 1, Cost: 2, CommittedOnly: true, Whole: true})
 	if check == "C03" || check == "C04" {
 		// the openings of the last round of the offline presigning (presignature id and its decommitment, S share)
 		l = append(l, scenario{Name: "cmp-presign/n2/t1/last-round-openings", Proto: "cmp-presign", N: 2, T: 1, Cost: 2,
-			OnlyPaths: []string{"/PresignatureID", "/DecommitmentID", "/S"}})
+			OnlyPaths: []string{"/PresignatureID", "/DecommitmentID", "/S"}, Whole: true})
 		// ... and with three signers, where the last (never echoed) broadcast can be shown differently to the two honest ones
 		l = append(l, scenario{Name: "cmp-presign/n3/t1/last-round-id", Proto: "cmp-presign", N: 3, T: 1, Cost: 2,
 			OnlyPaths: []string{"/PresignatureID", "/DecommitmentID"}})
 	}
 	if check == "C03" || check == "C04" {
 		// the signature share of the online phase on a digest LONGER than a scalar (64 bytes, what the package's own tests sign)
-		l = append(l, scenario{Name: "cmp-presign-online/n2/t1/digest64", Proto: "cmp-presign-online", N: 2, T: 1, Cost: 1, MsgLen: 64, OnlyPaths: []string{"/Sigma"}})
+		l = append(l, scenario{Name: "cmp-presign-online/n2/t1/digest64", Proto: "cmp-presign-online", N: 2, T: 1, Cost: 1, MsgLen: 64, OnlyPaths: []string{"/Sigma"}, Whole: true})
 	}
 	// a signer that commits to a malformed presignature-id contribution in round 2 and opens that commitment in round 7
-	l = append(l, scenario{Name: "cmp-presign/n2/t1/committed-values", Proto: "cmp-presign", N: 2, T: 1, Cost: 2, CommittedOnly: true})
+	l = append(l, scenario{Name: "cmp-presign/n2/t1/committed-values", Proto: "cmp-presign", N: 2, T: 1, Cost: 2, CommittedOnly: true, Whole: true})
 	add("cmp-sign", 2, 1, 2) // the largest quick-tier catalogue comes last: an internal deadline, if ever hit, cuts only it
 	if vkit.Thorough() {
 		if check == "C04" {
@@ -409,34 +410,48 @@ func main() {
 		os.Exit(2)
 	}
 
-	deadline := vkit.Deadline(200*time.Second, 40*time.Minute)
-	n := 0
+	deadline := vkit.Deadline(300*time.Second, 40*time.Minute)
+	n := 0   // global number of the case among the partitioned scenarios (the same in every process)
+	seq := 0 // number of the case among those THIS process runs (progress / resume)
+	tIdx := 0
 	outcomes := map[string]int{}
 	perScenario := map[string]int{}
 	for _, sc := range scenarios(check) {
+		if sc.Whole {
+			owner := tIdx % vkit.ShardN()
+			tIdx++
+			if owner != vkit.ShardI() {
+				continue
+			}
+		}
 		if !vkit.Want(sc.Name) {
 			continue
 		}
+		tSc := time.Now()
 		w, err := build(sc)
+		tBuild := time.Since(tSc)
 		if err != nil {
 			res.Violate("honest-run-fails|"+sc.Proto, err.Error(), map[string]interface{}{"scenario": sc})
 			continue
 		}
 		cat := catalogue(w, check)
 		for _, k := range cat {
-			n++
-			if !vkit.Mine(n) {
-				continue
+			if !sc.Whole {
+				n++
+				if !vkit.Mine(n) {
+					continue
+				}
 			}
+			seq++
 			if !deadline.IsZero() && time.Now().After(deadline) {
 				res.Exhaustive = false
 				res.Note(fmt.Sprintf("internal deadline reached in scenario %s: the remaining cases of this shard were not run", sc.Name))
 				break
 			}
-			if n <= *vkit.ResumeAfter {
+			if seq <= *vkit.ResumeAfter {
 				continue
 			}
-			res.Progress(n, "process-death|"+k.class(w), k)
+			res.Progress(seq, "process-death|"+k.class(w), k)
 			vs := runCase(w, k, check, os.Getenv("FCHECK_VERBOSE") != "")
 			res.Case(k.key())
 			perScenario[sc.Name]++
@@ -448,11 +463,11 @@ func main() {
 			} else {
 				outcomes["violation"]++
 			}
-			if n%53 == 0 {
+			if seq%53 == 0 {
 				res.Sample(map[string]interface{}{"scenario": sc.Name, "deviator": k.Deviator, "slot": k.Slot.String(), "path": k.Path, "op": k.Op, "outcome": lastOutcome})
 			}
 		}
-		fmt.Fprintf(os.Stderr, "%-28s catalogue=%d\n", sc.Name, len(cat))
+		fmt.Fprintf(os.Stderr, "%-28s catalogue=%d build=%.1fs total=%.1fs shard=%d\n", sc.Name, len(cat), tBuild.Seconds(), time.Since(tSc).Seconds(), vkit.ShardI())
 	}
 	if check == "C05" && vkit.ShardI() == 0 {
 		decoderSeam(res)
